@@ -1,12 +1,12 @@
 import UtilModel.Core.Driver
 import UtilModel.Core.DriverH
 import UtilModel.Broadcast.Model
-import UtilModel.Broadcast.Monitors
+import UtilModel.Broadcast.LockModel
 /-! Development driver for this component only:
 `lake env lean --run UtilModel/Broadcast/TestDriver.lean broadcast < hist` -/
 open UtilModel
 
 def main (args : List String) : IO UInt32 :=
   driverMain [
-    mkEntryH "broadcast" Broadcast.model Broadcast.Obs.parse [MonEntry.ofMonitor "C03" Broadcast.monC03]
+    mkEntryH "broadcast" Broadcast.lmodel Broadcast.Obs.parse [MonEntry.ofMonitor "C03" Broadcast.monC03L]
   ] args
